@@ -9,17 +9,32 @@ for e in kf:
     what = re.sub(r"^fixed: property=\S+ \S+ ", "", what)
     rows.append("| %s | %s | %s | %s | %s | `%s` |" % (e["id"], e["property"], e["status"], e.get("commit", "-"), what.replace("|", "/"), e["mechanism"].replace("|", "\\|")))
 findings = "\n".join(rows)
-rows = ["| seeded change | property | what it needs to manifest | valid seed | caught by (quick tier) | mechanisms reported |", "|---|---|---|---|---|---|"]
+rows = ["| seeded change | property | file / what it breaks (author's words, shortened) | what it needs to manifest | first evaluation | now |", "|---|---|---|---|---|---|"]
 for d in sorted(glob.glob(os.path.join(HERE, "seeded", "*"))):
     mp = os.path.join(d, "meta.json")
     if not os.path.exists(mp):
         continue
     m = json.load(open(mp))
-    needs = m.get("needs_to_manifest", "")
-    caught = [c for c, v in m.get("caught_by", {}).items() if v.get("exit") == 1]
-    mechs = sorted({x for v in m.get("caught_by", {}).values() for x in v.get("mechanisms", [])})[:3]
-    rows.append("| %s | %s | %s | %s | %s | %s |" % (os.path.basename(d), m.get("property"), needs.replace("|", "/")[:160], m.get("valid_seed"),
-                                                   ", ".join(caught) or ("**missed**" if m.get("valid_seed") else "-"), "; ".join("`%s`" % x for x in mechs)))
+    name = os.path.basename(d)
+    idx = int(name.split("_s")[1]) - 1 if "_s" in name else 0
+    am = (m.get("author_meta") or {}).get("changes") or []
+    what = needs = ""
+    if idx < len(am):
+        what = str(am[idx].get("what_it_breaks", ""))[:230]
+        needs = str(am[idx].get("needs_to_manifest", ""))[:230]
+    first = m.get("caught_by", {})
+    fc = [c for c, v in first.items() if v.get("exit") == 1]
+    fm = sorted({x for v in first.values() for x in v.get("mechanisms", [])})[:2]
+    first_txt = ("caught: " + "; ".join("`%s`" % x for x in fm)) if fc else "**missed**"
+    fin = m.get("final")
+    if fin is None:
+        now = first_txt if fc else "**missed**"
+    elif fin.get("exit") == 1:
+        now = "caught: " + "; ".join("`%s`" % x for x in fin.get("mechanisms", [])[:2])
+    else:
+        now = "**missed** (%s)" % fin.get("last", fin.get("note", ""))[:60]
+    clean = lambda t: t.replace("|", "/").replace("\n", " ")
+    rows.append("| %s | %s | %s | %s | %s | %s |" % (name, m.get("property"), clean(what), clean(needs), first_txt, now))
 seeded = "\n".join(rows)
 p = os.path.join(HERE, "DESIGN.md")
 s = open(p).read()
